@@ -91,6 +91,12 @@ def body(chk):
                 silent = [pde.pc_term(p['pc']) for p in paths
                           if p['ret'] is tm.const(-1) and not any(e[0] == 'cout' for e in p['st'].events)]
                 chk.paths_clean('%s<%s>:%s:error-path-reports' % (name, scalar, api), silent, key='%s:%s:error-report' % (name, api))
+    # power-law solution: gradient members over abstract jets (the jets themselves are proved in C03's powerlaw-jets family and again here)
+    sys.path.insert(0, os.path.dirname(os.path.abspath(__file__)))
+    import c03_powerlaw
+    wn = chk.world(extra=('-fno-inline',))
+    c03_powerlaw.build(chk, wn)
+    c03_powerlaw.build(chk, wn, gradients=True)
     chk.solve_all()
 
 
